@@ -366,13 +366,12 @@ func incrBubbleCfg(sc *Sched, w *gworld, budget int) sim.BubbleConfig {
 			// Executor.dirty is held (shared) by every Run for its whole duration; a
 			// goroutine blocked on a mutex is invisible to synctest, so the
 			// scheduler lets an eviction reach Lock only when no Run is active.
-			// (Nor while a straggler of a cancelled Run is still inside Execute: the
-			// model does not describe evictions that overlap an execution.)
+			// Nor while goroutines that a cancelled Run left behind are still alive:
+			// they hold no lock, and what an eviction does to the tasks they lead is
+			// outside both the property and the model.
 			"i.evict.lock": func() bool {
-				for _, x := range w.executing {
-					if x {
-						return false
-					}
+				if sim.SpawnedParked() {
+					return false
 				}
 				return w.activeRuns == 0
 			},
